@@ -429,6 +429,7 @@ func realMain() int {
 			ur.Kind = "sweep"
 			ur.Target = x.fnShort(u.sw.Target)
 			ur.Props = u.sw.Props
+			x.kindFilter = u.sw.Kinds
 			finals = x.verifySweep(u.sw)
 		}
 		x.wg.Wait()
